@@ -33,9 +33,17 @@ type lcase struct {
 	mu      sync.Mutex
 	l       lock.Lock
 	nkeys   int
-	ntok    []int      // per key: number of Lock calls (tokens) so far
+	ntok    []int    // per key: number of Lock calls (tokens) so far
 	recs    [][]*rec // per key: observed events
 	contend bool
+	// TTL accounting (all under mu): the queue of each key as the hook events show it, the instant
+	// at which each caller's ready channel was (about to be) closed, the TTL each caller asked for,
+	// and for every caller removed by its TTL watchdog how long after that instant it happened
+	q       [][]int
+	readyAt []map[int]time.Time
+	ttl     []map[int]time.Duration
+	lives   [][]string
+	livesH  [][]string
 }
 
 // one observed event; pruned is set when the lock.prune point is passed in the same critical
@@ -80,8 +88,8 @@ type activity struct {
 	c      *lcase
 	inLock bool
 	key    int
-	tok    int  // Lock call: its token
-	idtok  int  // Unlock call: token whose id is used, -1 = foreign id
+	tok    int // Lock call: its token
+	idtok  int // Unlock call: token whose id is used, -1 = foreign id
 }
 
 type lastRemoved struct {
@@ -120,11 +128,14 @@ func controller(site string, gid int64, args []int64) {
 			return
 		}
 		callers.Store(args[1], &callerRef{a.c, a.key, a.tok, gid})
+		a.c.mu.Lock()
 		if args[2] > 1 {
-			a.c.mu.Lock()
 			a.c.contend = true
-			a.c.mu.Unlock()
+		} else {
+			a.c.readyAt[a.key][a.tok] = time.Now() // enqueued on an empty queue: ready is closed right away
 		}
+		a.c.q[a.key] = append(a.c.q[a.key], a.tok)
+		a.c.mu.Unlock()
 		a.c.log(a.key, common.App("EEnq", common.Nat(a.tok), common.Nat(int(args[2]))), fmt.Sprintf("enqueue caller %d, queue length %d", a.tok, args[2]))
 	case "lock.enqueue.retired":
 		if a == nil || !a.inLock {
@@ -154,6 +165,30 @@ func controller(site string, gid int64, args []int64) {
 				who, whoH = common.App("WUnlock", optTok(a.idtok)), fmt.Sprintf("Unlock with the id of caller %d (-1 = foreign)", a.idtok)
 			}
 		}
+		now := time.Now() // taken under q.mu, before the next waiter is woken
+		cr.c.mu.Lock()
+		kq := cr.c.q[cr.key]
+		for i, t := range kq {
+			if t == cr.tok {
+				kq = append(kq[:i:i], kq[i+1:]...)
+				break
+			}
+		}
+		cr.c.q[cr.key] = kq
+		if args[2] == 0 && len(kq) > 0 {
+			if _, seen := cr.c.readyAt[cr.key][kq[0]]; !seen {
+				cr.c.readyAt[cr.key][kq[0]] = now // the new head's ready is closed in this critical section
+			}
+		}
+		if who == "WWatchdog" {
+			if t0, ok := cr.c.readyAt[cr.key][cr.tok]; ok {
+				ttl := cr.c.ttl[cr.key][cr.tok]
+				lived := now.Sub(t0)
+				cr.c.lives[cr.key] = append(cr.c.lives[cr.key], fmt.Sprintf("(%s, %s, %s)", common.Nat(cr.tok), common.Z(ttl.Microseconds()), common.Z(lived.Microseconds())))
+				cr.c.livesH[cr.key] = append(cr.c.livesH[cr.key], fmt.Sprintf("caller %d: ttl %v, removed by its watchdog %v after it became head (ready closed)", cr.tok, ttl, lived))
+			}
+		}
+		cr.c.mu.Unlock()
 		r := cr.c.log(cr.key, common.App("ERem", common.Nat(cr.tok), common.Nat(int(args[2])), common.Nat(int(args[3])), who),
 			fmt.Sprintf("remove caller %d at index %d, length after %d, by %s", cr.tok, args[2], args[3], whoH))
 		lastRem.Store(gid, &lastRemoved{cr.c, r})
@@ -171,12 +206,19 @@ type idBook struct {
 	ids map[[2]int]string // (key, tok) -> lock id
 }
 
-func (b *idBook) put(key, tok int, id string) { b.mu.Lock(); b.ids[[2]int{key, tok}] = id; b.mu.Unlock() }
+func (b *idBook) put(key, tok int, id string) {
+	b.mu.Lock()
+	b.ids[[2]int{key, tok}] = id
+	b.mu.Unlock()
+}
 
 func keyName(k int) string { return fmt.Sprintf("key-%d", k) }
 
 func doLock(c *lcase, a *activity, key int, ttl time.Duration, cancelAfter time.Duration) (tok int, id string, ok bool) {
 	tok = c.newTok(key)
+	c.mu.Lock()
+	c.ttl[key][tok] = ttl
+	c.mu.Unlock()
 	a.inLock, a.key, a.tok = true, key, tok
 	ctx := context.Background()
 	var cancel context.CancelFunc
@@ -242,8 +284,8 @@ func finish(c *lcase, hang bool, kind string) cres {
 	for k := 0; k < c.nkeys; k++ {
 		n, has := lock.QueueLen(c.l, keyName(k))
 		terms, human := c.flat(k)
-		res.keys = append(res.keys, fmt.Sprintf("(Build_kcase %s %s %s %s)", common.Nat(c.ntok[k]), common.List(terms), common.Bool(has), common.Nat(n)))
-		hum[keyName(k)] = map[string]interface{}{"lock_calls": c.ntok[k], "events": human, "entry_after_quiescence": has, "queued_after_quiescence": n}
+		res.keys = append(res.keys, fmt.Sprintf("(Build_kcase %s %s %s %s %s)", common.Nat(c.ntok[k]), common.List(terms), common.Bool(has), common.Nat(n), common.List(c.lives[k])))
+		hum[keyName(k)] = map[string]interface{}{"lock_calls": c.ntok[k], "events": human, "ttl_releases": c.livesH[k], "entry_after_quiescence": has, "queued_after_quiescence": n}
 	}
 	res.descr = map[string]interface{}{"kind": kind, "keys": hum, "stuck_waiter": hang, "map_entries_after_quiescence": lock.QueueCount(c.l)}
 	return res
@@ -253,7 +295,14 @@ func finish(c *lcase, hang bool, kind string) cres {
 // sees Unlock calls.
 func newCase(nkeys int) *lcase {
 	nkeys++
-	return &lcase{l: lock.New(), nkeys: nkeys, ntok: make([]int, nkeys), recs: make([][]*rec, nkeys)}
+	c := &lcase{l: lock.New(), nkeys: nkeys, ntok: make([]int, nkeys), recs: make([][]*rec, nkeys),
+		q: make([][]int, nkeys), readyAt: make([]map[int]time.Time, nkeys), ttl: make([]map[int]time.Duration, nkeys),
+		lives: make([][]string, nkeys), livesH: make([][]string, nkeys)}
+	for k := 0; k < nkeys; k++ {
+		c.readyAt[k] = map[int]time.Time{}
+		c.ttl[k] = map[int]time.Duration{}
+	}
+	return c
 }
 
 func concurrentCase(r *common.Rng) cres {
@@ -366,6 +415,9 @@ func serialCase(r *common.Rng) cres {
 				acts.Store(gid, a)
 				defer acts.Delete(gid)
 				tok := c.newTok(0)
+				c.mu.Lock()
+				c.ttl[0][tok] = ttl
+				c.mu.Unlock()
 				a.inLock, a.key, a.tok = true, 0, tok
 				x.tok = tok
 				id, err := c.l.Lock(ctx, keyName(0), ttl)
@@ -485,6 +537,46 @@ func ttlProbe(srv *rig.Server, i int, asked int64) (early, later bool, waited ti
 	return
 }
 
+// ttlProbeQueued: the TTL of a lock that was waited for runs from the grant, not from the arrival
+// of the request. A holds the key; B queues with TTL asked and waits waitMs; A unlocks, B is
+// granted and never unlocks; C queues behind B: C must be let in about max(asked,1000) ms after
+// B's Lock RETURNED (not earlier), and not much later.
+func ttlProbeQueued(srv *rig.Server, i int, asked int64, waitMs int) (early, later bool, waited time.Duration) {
+	key := fmt.Sprintf("c14-ttlq-%d", i)
+	ctx := context.Background()
+	ra, err := srv.GW.Lock(ctx, &hydrapb.LockRequest{Key: key, TTL: 5000})
+	if err != nil {
+		return false, false, 0
+	}
+	bDone := make(chan time.Time, 1)
+	go func() {
+		if _, err := srv.GW.Lock(ctx, &hydrapb.LockRequest{Key: key, TTL: asked}); err != nil {
+			bDone <- time.Time{}
+			return
+		}
+		bDone <- time.Now()
+	}()
+	time.Sleep(time.Duration(waitMs) * time.Millisecond)
+	srv.GW.Unlock(ctx, &hydrapb.UnlockRequest{Key: key, LockID: ra.GetLockID()})
+	tB := <-bDone
+	if tB.IsZero() {
+		return false, false, 0
+	}
+	rc, err := srv.GW.Lock(ctx, &hydrapb.LockRequest{Key: key, TTL: 1000})
+	waited = time.Since(tB)
+	if err != nil {
+		return false, false, waited
+	}
+	srv.GW.Unlock(ctx, &hydrapb.UnlockRequest{Key: key, LockID: rc.GetLockID()})
+	floor := asked
+	if floor < 1000 {
+		floor = 1000
+	}
+	early = waited < time.Duration(floor-60)*time.Millisecond
+	later = waited < time.Duration(floor+1500)*time.Millisecond
+	return
+}
+
 func main() {
 	a := common.ParseArgs()
 	run := common.NewRun(a, "C14", "HV.Conc.BLock")
@@ -552,6 +644,23 @@ func main() {
 			map[string]interface{}{"kind": "gateway-ttl", "asked_ttl_ms": asked[i], "second_lock_waited_ms": t.waited.Milliseconds(),
 				"released_before_floor": t.early, "released_by_ttl": t.later, "second_waiter_ctx_cancelled_after_ms": 100}, true)
 		run.Hist("gateway_ttl")
+	}
+	type qp struct {
+		asked int64
+		wait  int
+	}
+	qps := []qp{{1000, 700}, {1200, 1100}, {300, 400}}
+	qrs := make([]tr, len(qps))
+	common.Parallel(len(qps), len(qps), func(i int) {
+		e, l, w := ttlProbeQueued(srv, i, qps[i].asked, qps[i].wait)
+		qrs[i] = tr{e, l, w}
+	})
+	for i, t := range qrs {
+		run.Add(common.App("KTtl", common.Z(qps[i].asked), common.Bool(t.early), common.Bool(t.later)),
+			map[string]interface{}{"kind": "gateway-ttl-after-queueing", "asked_ttl_ms": qps[i].asked, "holder_waited_in_queue_ms": qps[i].wait,
+				"next_caller_waited_ms_after_the_holders_Lock_returned": t.waited.Milliseconds(),
+				"released_before_ttl_since_grant":                       t.early, "released_by_ttl": t.later}, true)
+		run.Hist("gateway_ttl_after_queueing")
 	}
 	srv.Stop()
 	os.RemoveAll(root)
